@@ -263,7 +263,9 @@ def run_clip(case):
     for hi in LIMITS:
       l = None if lo is None else F(lo)
       h = None if hi is None else F(hi)
-      args = (None if l is None else Q(l), None if h is None else Q(h))
+      plain = (LIMITS.index(lo) + LIMITS.index(hi)) % 2 == 1
+      conv = (lambda v: int(v)) if plain else Q
+      args = (None if l is None else conv(l), None if h is None else conv(h))
       if l is not None and h is not None and h < l:
         try:
           list(clip([Q(v) for v in x], *args))
@@ -313,12 +315,15 @@ def run_zcross(case):
           exp.append(1)
         else:
           exp.append(0)
+      # parameter types alternate between the exact class Q and plain int / Fraction
+      plain = (HYST.index(hs) + FSIGN.index(fs)) % 2 == 1
+      conv = (lambda v: int(v) if F(v).denominator == 1 else F(v)) if plain else Q
       try:
         list(zcross([Q(1), Q(-4), Q(4)], hysteresis=Q(h) + 2, first_sign=-Q(f)))                       # decoy
         if h == 0 and f == 0:
           got = list(zcross([Q(v) for v in x]))
         else:
-          got = list(zcross([Q(v) for v in x], hysteresis=Q(h), first_sign=Q(f)))
+          got = list(zcross([Q(v) for v in x], hysteresis=conv(h), first_sign=conv(f)))
       except Exception as exc:
         return bad("zcross:exception:" + type(exc).__name__, "zcross raised", None, str(exc)[:200])
       crossings += sum(exp)
